@@ -58,7 +58,9 @@ def step (w : W) (toks : List String) : W × String :=
     match verify w.H w.chk w.st (unesc addr) (unesc ref) (len.toNat?.getD 0) with
     | .valid sg alg cert ts => (w, s!"valid sig={esc sg} alg={esc alg} cert={esc cert} ts={esc ts}")
     | .invalid => (w, "err")
-  | ["s.acct", a, kind] => ({ w with accts := w.accts.set a (kind = "basekey") }, ".")
+  | ["s.acct", a, kind] =>
+    -- the executor creates the account if absent and SETS a key for "basekey"; an existing key is kept
+    ({ w with accts := w.accts.set a (kind = "basekey" || (w.accts.get? a).getD false) }, ".")
   | ["s.createAccount", creator, target, _pk, cls] =>
     let t := addrStr target
     let cur := fun (w : W) => match w.accts.get? t with
